@@ -42,3 +42,43 @@ pub proof fn lemma_acc_c_no_bounds(cs: Seq<&LabeledCommitment<Commitment>>, vs: 
     ensures acc_c(cs, vs, vk->Some_0, s, k) == acc_c0(cs, s, k)
     decreases k
 { if k > 0 { lemma_acc_c_no_bounds(cs, vs, vk, s, (k - 1) as nat); } }
+
+// the accumulated value is linear in each claimed value, with the challenge of that position as coefficient
+pub proof fn lemma_acc_v_position(cs: Seq<&LabeledCommitment<Commitment>>, vs: Seq<Fr>, vs2: Seq<Fr>, s: SS, k: nat, i: int)
+    requires k <= vs.len(), k <= vs2.len(), 0 <= i, forall|j: int| 0 <= j < k && j != i ==> vs[j]@ == vs2[j]@
+    ensures acc_v(cs, vs, s, k) == f_add(acc_v(cs, vs2, s, k), if i < k { f_mul(f_sub(vs[i]@, vs2[i]@), sp_chal(s, nsq(cs, i as nat))) } else { f_zero() })
+    decreases k
+{
+    if k == 0 { ax_add_zero(f_zero()); }
+    else {
+        let j = (k - 1) as nat; let ji = j as int; let xi = sp_chal(s, nsq(cs, j));
+        lemma_acc_v_position(cs, vs, vs2, s, j, i);
+        let a = acc_v(cs, vs2, s, j);
+        if ji == i {
+            ax_add_zero(a);
+            // (a + v2 xi) + (v - v2) xi == a + v xi
+            let v = vs[ji]@; let v2 = vs2[ji]@;
+            ax_mul_comm(f_sub(v, v2), xi); lemma_distrib_sub(xi, v, v2); ax_mul_comm(xi, v); ax_mul_comm(xi, v2);
+            let p = f_mul(v, xi); let p2 = f_mul(v2, xi);
+            ax_add_assoc(a, p2, f_sub(p, p2)); ax_add_comm(p, f_neg(p2)); ax_add_assoc(p2, f_neg(p2), p); ax_add_neg(p2); ax_add_comm(f_zero(), p); ax_add_zero(p);
+        } else {
+            let x = if i < ji { f_mul(f_sub(vs[i]@, vs2[i]@), sp_chal(s, nsq(cs, i as nat))) } else { f_zero() };
+            let y = f_mul(vs2[ji]@, xi);
+            ax_add_assoc(a, x, y); ax_add_comm(x, y); ax_add_assoc(a, y, x);
+        }
+    }
+}
+// C02 at one position: two value vectors that differ at position i only and have the same accumulated value agree at i (the challenge of that position is non-zero)
+pub proof fn lemma_acc_v_unique_at(cs: Seq<&LabeledCommitment<Commitment>>, vs: Seq<Fr>, vs2: Seq<Fr>, s: SS, k: nat, i: int)
+    requires k <= vs.len(), k <= vs2.len(), 0 <= i < k, forall|j: int| 0 <= j < k && j != i ==> vs[j]@ == vs2[j]@,
+        acc_v(cs, vs, s, k) == acc_v(cs, vs2, s, k), sp_chal(s, nsq(cs, i as nat)) != f_zero()
+    ensures vs[i]@ == vs2[i]@
+{
+    lemma_acc_v_position(cs, vs, vs2, s, k, i);
+    let a = acc_v(cs, vs2, s, k); let d = f_mul(f_sub(vs[i]@, vs2[i]@), sp_chal(s, nsq(cs, i as nat)));
+    // a == a + d  ==>  d == 0
+    ax_add_zero(a); ax_add_comm(a, d); ax_add_comm(a, f_zero());
+    lemma_add_cancel(d, f_zero(), a);
+    ax_no_zero_div(f_sub(vs[i]@, vs2[i]@), sp_chal(s, nsq(cs, i as nat)));
+    lemma_sub_zero_eq(vs[i]@, vs2[i]@);
+}
